@@ -140,8 +140,12 @@ def gen_case(seed):
         spec['noemit'] = noemit
     store_schema = None
     if swarm['store_schema']:
-        m = r.below(3)
-        if m == 0:
+        m = r.below(4)
+        if m == 3:
+            # a branch-level flag and a differing flag for one variable inside the same branch
+            b_ = bool(r.below(2))
+            store_schema = {'acc': {'_emit': b_, r.pick(avars): {'_emit': not b_}}}
+        elif m == 0:
             store_schema = {'acc': {'_emit': bool(r.below(2))}}          # branch-level flag
         elif m == 1:
             store_schema = {'acc': {r.pick(avars): {'_emit': bool(r.below(2))}}}
